@@ -55,6 +55,7 @@ type Truth struct {
 	CAKeysInstalled  bool
 	PACELastK        []byte // last PACE key-agreement secret the chip derived (fixed-width x-coordinate), for classification only
 	CALastK          []byte // last chip-authentication secret
+	CALastSM         *refcrypto.SM // copy of the session the chip derived in its last chip authentication (initial state)
 	AASigned         int // number of INTERNAL AUTHENTICATE signatures produced
 	AAChallenges     [][]byte
 	SMAborted        int
